@@ -404,7 +404,7 @@ func genC19(seed int64, tier string) []caseOut {
 		hps := hostilePatches()
 		seqs := make([]patchSeq, len(hps))
 		for k, p := range hps {
-			seqs[k] = patchSeq{hostDoc, []string{p}}
+			seqs[k] = patchSeq{Doc: hostDoc, Patches: []string{p}}
 		}
 		classes, details := runChildBatch(seqs)
 		for k, p := range hps {
@@ -422,6 +422,20 @@ func genC19(seed int64, tier string) []caseOut {
 		for k, seq := range seqs {
 			in, _ := json.Marshal(seq)
 			record("patch-sequence-child-process", "FromBytes+Validate+ApplyPatches+Marshal", in, classes[k], details[k])
+		}
+	}
+	// 3c. compact JWS whose protected header is nested millions of levels deep (the header decoder is
+	// third-party code that recurses per level): each in a child process, answered with an error
+	{
+		var seqs []patchSeq
+		for _, shape := range []string{"arrays", "objects", "unclosed"} {
+			for _, depth := range []int{10001, 200000, 6000000} {
+				seqs = append(seqs, patchSeq{HeaderDepth: depth, HeaderShape: shape})
+			}
+		}
+		classes, details := runChildBatch(seqs)
+		for k, sq := range seqs {
+			record("jws-deep-header-child-process", "jwsutil.ParseJWS+VerifyJWS", []byte(fmt.Sprintf("protected header nested %d levels (%s)", sq.HeaderDepth, sq.HeaderShape)), classes[k], details[k])
 		}
 	}
 	// 4. DIDs
@@ -448,6 +462,24 @@ func genC19(seed int64, tier string) []caseOut {
 type patchSeq struct {
 	Doc     string   `json:"doc"`
 	Patches []string `json:"patches"`
+	// other work for the child: a compact JWS whose protected header is nested HeaderDepth levels deep
+	// (built in the child; far too large to pass around), parsed and verified
+	HeaderDepth int    `json:"header_depth,omitempty"`
+	HeaderShape string `json:"header_shape,omitempty"`
+}
+
+// deepHeaderJWS: {"alg":"ES256","kid": [[[...]]] } and similar, as a compact JWS
+func deepHeaderJWS(shape string, depth int) string {
+	var hdr string
+	switch shape {
+	case "arrays":
+		hdr = `{"alg":"ES256","kid":` + strings.Repeat("[", depth) + strings.Repeat("]", depth) + `}`
+	case "objects":
+		hdr = `{"alg":"ES256","kid":` + strings.Repeat(`{"a":`, depth) + "1" + strings.Repeat("}", depth) + `}`
+	default: // unclosed
+		hdr = `{"alg":"ES256","kid":` + strings.Repeat("[", depth)
+	}
+	return b64([]byte(hdr)) + ".e30.AAAA"
 }
 
 func childPatches() {
@@ -463,6 +495,18 @@ func childPatches() {
 }
 
 func childOne(in patchSeq) int {
+	if in.HeaderDepth > 0 {
+		class, _ := guarded(func() error {
+			c := deepHeaderJWS(in.HeaderShape, in.HeaderDepth)
+			_, e1 := jwsutil.ParseJWS(c)
+			_, e2 := jwsutil.VerifyJWS(c, &jws.JWK{Kty: "EC", Crv: "P-256", X: "AA", Y: "AA"})
+			if e1 == nil && e2 == nil {
+				return nil
+			}
+			return fmt.Errorf("refused")
+		})
+		return class
+	}
 	class, _ := guarded(func() error {
 		doc, e := document.FromBytes([]byte(in.Doc))
 		if e != nil {
@@ -552,7 +596,7 @@ func patchSequences(r *rand.Rand, n int) []patchSeq {
 	cp := func(from, path string) string { return fmt.Sprintf(`{"op":"copy","from":%q,"path":%q}`, from, path) }
 	mv := func(from, path string) string { return fmt.Sprintf(`{"op":"move","from":%q,"path":%q}`, from, path) }
 	var out []patchSeq
-	add := func(ps ...string) { out = append(out, patchSeq{doc, ps}) }
+	add := func(ps ...string) { out = append(out, patchSeq{Doc: doc, Patches: ps}) }
 	// copy / move into the operation's own source, in every spelling of the shared prefix
 	zero := []string{"0", "+0", "-0", "00", "000", "-00", "+00"}
 	for _, z := range zero {
@@ -587,6 +631,23 @@ func patchSequences(r *rand.Rand, n int) []patchSeq {
 	for _, v := range []string{`{"x":1}`, `[5]`, `"s"`, `null`} {
 		// members the key / service actions read, replaced through a JSON patch on a parent that is not protected
 		add(jp(fmt.Sprintf(`{"op":"add","path":"/publicKeyX","value":%s}`, v)), `{"action":"remove-public-keys","ids":["k1"]}`, `{"action":"remove-services","ids":["s1"]}`)
+	}
+	// key / service lists holding entries that are no objects (in front of, between and behind real
+	// entries), installed by a replace; then the list actions re-state, remove and extend them
+	key := func(id string) string {
+		return `{"id":"` + id + `","type":"JsonWebKey2020","purposes":["authentication"],"publicKeyJwk":{"kty":"EC","crv":"P-256","x":"PUymIqdtF_qxaAqPABSw-C-owT1KYYQbsMKFM-L9fJA","y":"nM84jDHCMOTGTh_ZdHq4dBBdo4Z5PkEOW9jA8z8IsGc"}}`
+	}
+	svc := func(id string) string { return `{"id":"` + id + `","type":"T","serviceEndpoint":"https://example.com/` + id + `"}` }
+	for _, junk := range []string{`"not-an-entry"`, `5`, `null`, `["x"]`, `true`} {
+		for _, shape := range []string{"%[1]s,%[2]s", "%[2]s,%[1]s", "%[2]s,%[1]s,%[3]s", "%[1]s,%[1]s,%[2]s,%[3]s"} {
+			ks := fmt.Sprintf(shape, junk, key("key1"), key("key2"))
+			ss := fmt.Sprintf(shape, junk, svc("svc1"), svc("svc2"))
+			rep := `{"action":"replace","document":{"publicKeys":[` + ks + `],"services":[` + ss + `]}}`
+			add(rep, `{"action":"add-public-keys","publicKeys":[`+key("key1")+`]}`)
+			add(rep, `{"action":"add-services","services":[`+svc("svc1")+`]}`)
+			add(rep, `{"action":"add-public-keys","publicKeys":[`+key("new")+`,`+key("key2")+`]}`, `{"action":"remove-public-keys","ids":["key1"]}`)
+			add(rep, `{"action":"remove-services","ids":["svc1"]}`, `{"action":"add-services","services":[`+svc("svc2")+`,`+svc("new")+`]}`)
+		}
 	}
 	for len(out) < n {
 		out = append(out, out[r.Intn(len(out))])
